@@ -26,6 +26,7 @@ type Program struct {
 	PkgOf  map[string]*packages.Package
 	Funcs  map[string]*ssa.Function // "pkgpath::key" -> function
 	Specs  map[string]*PkgSpec      // import path -> spec
+	Dangling []string               // contracts whose function no longer exists
 	LoadMs int64
 }
 
@@ -157,7 +158,11 @@ func loadProgram(repo string) (*Program, error) {
 				continue
 			}
 			if _, ok := P.Funcs[path+"::"+key]; !ok {
-				return nil, fmt.Errorf("%s:%d: contract for unknown function %q (known: %s)", c.File, c.Line, key, strings.Join(P.similar(path, key), ", "))
+				// The function was renamed or removed. Not fatal here: a property that
+				// lists the function reports it (its function cannot be found); callers
+				// of the renamed function see a callee without contract.
+				P.Dangling = append(P.Dangling, fmt.Sprintf("%s:%d: contract for unknown function %q (similar: %s)", c.File, c.Line, key, strings.Join(P.similar(path, key), ", ")))
+				delete(ps.Contracts, key)
 			}
 		}
 	}
